@@ -474,7 +474,9 @@ def token_signature(info, rec, res):
             for pat, cls in RAW_CLASSES:
                 if re.search(pat, res["cerr"].splitlines()[0] if res["cerr"] else ""):
                     return "C16:accepted-but-does-not-compile:%s" % cls
-            return "C16:accepted-but-does-not-compile:raw:%s" % ec
+            # (one class: which compiler message a piece of garbage ends in depends on the sample, the defect does not:
+            # the parser skipped what it could not read instead of reporting it)
+            return "C16:accepted-but-does-not-compile:raw-input-outside-the-language"
         if info["kind"] == "soft":
             return "C16:accepted-but-does-not-compile:%s" % info["why"]
         return "C16:accepted-but-does-not-compile:unexpected-%s-at-%s" % (tokname(info["t"]), info["ctl"])
